@@ -253,6 +253,63 @@ def python_meaning(pytext: str, funcs=FUNCS_ALLOWED) -> ast.Expression:
 IDENT_POOL_TAME = ("N", "M", "K", "batch", "seq_len", "_d0", "x1", "H")
 IDENT_POOL_ODD = ("a.b_1", "decoder_input_ids.45_dim_1", "if", "lambda", "is", "A.B.c")
 
+# Symbol NAMES as a dimension of the workload.  Every name below is an identifier of the documented
+# tokenizer (first character a letter - of any script - or '_', then letters, digits, '_' and '.');
+# what a dimension is called must not matter to any evaluation, print or parse.
+NAME_CLASSES: dict[str, tuple[str, ...]] = {
+    "accented-latin": ("s\u00e9q", "\u00f1_2", "Gr\u00f6\u00dfe", "\u00e9", "largeur_\u00e9cran", "\u00c5"),
+    "greek": ("\u03b2", "\u03a3x", "\u03b1\u03b2\u03b3", "\u03bb", "\u0394t_1"),
+    "cjk": ("\u6279\u6b21", "\u9577\u3055_1", "\ubc30\uce58", "\u30d0\u30c3\u30c1", "\u5e8f\u5217\u957f\u5ea6"),
+    "other-script": ("\u0434\u043b\u0438\u043d\u0430", "\u01c5", "\U0001d465", "\u05d0\u05d1", "x\u0663", "\u0637\u0648\u0644"),
+    "digits-underscores": ("_", "__", "_1", "x_", "a1b2", "_0_", "x9", "a_1_b", "d0", "_9x_", "n__2"),
+    "dotted": ("x.0", "a.b.c", "in.0.dim_1", "_.1", "onnx..Concat_3.out"),
+    "long": ("x" * 300, "dim_" + "abc_" * 40 + "9", "L" + "0123456789" * 12),
+    "function-name-other-case": ("MAX", "Floor", "MIN", "Ceil", "SQRT", "FLOOR", "Sign", "ABS", "mAx", "MOD", "Ceiling"),
+    "function-name": ("max", "min", "floor", "mod", "sqrt", "ceiling", "abs", "sign", "Max", "Mod"),
+    "sympy-special-name": ("E", "I", "S", "O", "Q", "pi", "oo", "zoo", "nan", "Symbol", "Integer", "gamma", "beta", "re", "im"),
+    "python-keyword": ("None", "True", "False", "in", "not", "and", "lambda", "if", "is"),
+}
+_FUNCTION_NAMES_LOWER = frozenset(
+    ("max", "min", "floor", "mod", "sqrt", "ceiling", "ceil", "abs", "sign")
+)
+_SYMPY_SPECIAL = frozenset(NAME_CLASSES["sympy-special-name"]) | {"N", "Rational", "Float", "Add", "Mul", "Pow"}
+
+
+def name_class(name: str) -> str:
+    """Class of an identifier, computed from the identifier itself (so that a replay names a
+    mechanism the same way): what could make a tokenizer, a parser, a printer or SymPy treat it
+    differently from 'N'."""
+    import keyword
+
+    if not name.isascii():
+        return "non-ascii"
+    if "." in name:
+        return "dotted"
+    if len(name) > 64:
+        return "long"
+    if name in ("max", "Max", "min", "Min", "floor", "sqrt", "mod", "Mod", "ceiling", "ceil", "Abs", "abs", "sign"):
+        return "function-name"
+    if name.lower() in _FUNCTION_NAMES_LOWER:
+        return "function-name-other-case"
+    if keyword.iskeyword(name):
+        return "python-keyword"
+    if name in _SYMPY_SPECIAL and name != "N":
+        return "sympy-special-name"
+    if name.startswith("_") or name.endswith("_") or "__" in name or any(c.isdigit() for c in name):
+        return "digits-underscores"
+    return "plain"
+
+
+def name_classes(names) -> str:
+    """Stable label for a set of names: their classes, the plain ones left out."""
+    cls = sorted({name_class(n) for n in names} - {"plain"})
+    return "+".join(cls) or "plain"
+
+
+def tame_names(names) -> dict[str, str]:
+    """name -> a plain ASCII stand-in (``nm0``, ``nm1`` ...), deterministic by sorted order."""
+    return {n: f"nm{i}" for i, n in enumerate(sorted(set(names)))}
+
 
 class TokenText:
     """One token list, rendered for the library's parser (real names, free whitespace, optional
@@ -401,17 +458,22 @@ class Deriver:
             self.out.append(("RP", ")"))
 
 
-def random_string(rng) -> TokenText:
+def random_string(rng, special_idents=None) -> TokenText:
+    """``special_idents``: names that must be among the identifiers of the string (they replace
+    the first identifiers drawn from the tame pool)."""
     n_id = rng.choice((1, 2, 2, 3, 3))
     pool = list(IDENT_POOL_TAME)
     rng.shuffle(pool)
     idents = pool[:n_id]
-    if rng.random() < 0.15:
+    if special_idents:
+        special = list(special_idents)[:n_id]
+        idents = special + idents[len(special):]
+    elif rng.random() < 0.15:
         idents[rng.randrange(len(idents))] = rng.choice(IDENT_POOL_ODD)
     for _ in range(20):
         toks = Deriver(rng, idents, max_nodes=rng.choice((3, 5, 8, 12, 16))).derive()
         tt = TokenText(toks)
-        if tt.n_operators() >= 1:
+        if tt.n_operators() >= 1 and (not special_idents or any(n in tt.idents for n in special_idents)):
             return tt
     return tt
 
@@ -590,7 +652,9 @@ def shrink_ast(body: ast.AST, fails, max_tests: int = 120) -> ast.AST:
     return cur
 
 
-_IDENT_RE = re.compile(r"[A-Za-z_][A-Za-z0-9_.]*")
+# identifiers as the documented tokenizer reads them: a letter of any script or '_', then letters,
+# digits, '_' and '.'  (``\\w`` on str patterns is Unicode-aware)
+_IDENT_RE = re.compile(r"[^\W\d][\w.]*")
 
 
 def alias_text(text: str, real_names) -> tuple[str, dict[str, str]]:
@@ -604,6 +668,8 @@ def alias_text(text: str, real_names) -> tuple[str, dict[str, str]]:
         w = m.group(0)
         if w not in real_names:
             return w
+        if text[m.end():].lstrip().startswith("(") and w in _FUNC_IMPL:
+            return w  # a function application, not the symbol of the same name
         if w not in back:
             back[w] = f"v{len(back)}"
             names[back[w]] = w
@@ -615,7 +681,7 @@ def alias_text(text: str, real_names) -> tuple[str, dict[str, str]]:
 # ------------------------------------------------------------------------------------------------
 # the documented grammar read literally (naming aid only)
 # ------------------------------------------------------------------------------------------------
-_TOKEN_RE = re.compile(r"\s*(?:(\d+)|([A-Za-z_][A-Za-z0-9_.]*)|(//|\*\*|[-+*/%(),]))")
+_TOKEN_RE = re.compile(r"\s*(?:([0-9]+)|([^\W\d][\w.]*)|(//|\*\*|[-+*/%(),]))")
 
 
 def literal_grammar_value(text: str, env: dict[str, int]) -> Fraction:
